@@ -16,7 +16,12 @@ Definition val := N.        (* identity of a Python object; 0 is None *)
 Definition mid := N.        (* identity of a metric object or of one labelled child *)
 Definition V_None : val := 0.
 
-(* ---- exception classes: a finite tree ---- *)
+(* ---- exception classes: a finite hierarchy ----
+   An exception GROUP (PEP 654) is, for everything modelled here, just another class of the hierarchy:
+   ExceptionCounter.__exit__ evaluates isinstance(value, self._exception) on the escaping object, and isinstance
+   looks at the class of that object only - never at the exceptions a group holds, nor at __cause__ / __context__.
+   So a raised group is `Raise C_ExceptionGroup o` (its members are not part of the model: nothing may depend on
+   them).  ExceptionGroup has TWO bases (BaseExceptionGroup, Exception): the hierarchy is a DAG, not a tree. *)
 Inductive cls :=
   | C_BaseException | C_Exception | C_KeyboardInterrupt | C_SystemExit | C_GeneratorExit
   | C_ArithmeticError | C_ZeroDivisionError | C_LookupError | C_KeyError | C_IndexError
@@ -25,7 +30,13 @@ Inductive cls :=
   | C_UserError        (* class UserError(Exception) *)
   | C_UserKeyError     (* class UserKeyError(KeyError) *)
   | C_UserBase         (* class UserBase(BaseException) *)
-  | C_UserExit.        (* class UserExit(SystemExit) *)
+  | C_UserExit         (* class UserExit(SystemExit) *)
+  | C_BaseExceptionGroup   (* builtin, base BaseException *)
+  | C_ExceptionGroup       (* builtin, bases (BaseExceptionGroup, Exception) *)
+  | C_UserGroup            (* class UserGroup(ExceptionGroup) *)
+  | C_UserBaseGroup        (* class UserBaseGroup(BaseExceptionGroup) *)
+  | C_UserProxy            (* class UserProxy(KeyError) whose instances answer __class__ with LookupError *)
+  | C_UserMeta.            (* class UserMeta(ArithmeticError, metaclass=...) *)
 
 Definition cls_tag (c : cls) : N :=
   match c with
@@ -34,38 +45,44 @@ Definition cls_tag (c : cls) : N :=
   | C_KeyError => 8 | C_IndexError => 9 | C_ValueError => 10 | C_UnicodeError => 11 | C_TypeError => 12
   | C_OSError => 13 | C_FileNotFoundError => 14 | C_RuntimeError => 15 | C_RecursionError => 16
   | C_StopIteration => 17 | C_UserError => 18 | C_UserKeyError => 19 | C_UserBase => 20 | C_UserExit => 21
+  | C_BaseExceptionGroup => 22 | C_ExceptionGroup => 23 | C_UserGroup => 24 | C_UserBaseGroup => 25
+  | C_UserProxy => 26 | C_UserMeta => 27
   end.
 Definition cls_eqb (a b : cls) : bool := N.eqb (cls_tag a) (cls_tag b).
 
-(* the direct base class *)
-Definition parent (c : cls) : option cls :=
+(* the direct base classes, in the order of the class statement *)
+Definition parents (c : cls) : list cls :=
   match c with
-  | C_BaseException => None
-  | C_Exception | C_KeyboardInterrupt | C_SystemExit | C_GeneratorExit | C_UserBase => Some C_BaseException
+  | C_BaseException => []
+  | C_Exception | C_KeyboardInterrupt | C_SystemExit | C_GeneratorExit | C_UserBase
+  | C_BaseExceptionGroup => [C_BaseException]
   | C_ArithmeticError | C_LookupError | C_ValueError | C_TypeError | C_OSError | C_RuntimeError
-  | C_StopIteration | C_UserError => Some C_Exception
-  | C_ZeroDivisionError => Some C_ArithmeticError
-  | C_KeyError | C_IndexError => Some C_LookupError
-  | C_UnicodeError => Some C_ValueError
-  | C_FileNotFoundError => Some C_OSError
-  | C_RecursionError => Some C_RuntimeError
-  | C_UserKeyError => Some C_KeyError
-  | C_UserExit => Some C_SystemExit
+  | C_StopIteration | C_UserError => [C_Exception]
+  | C_ZeroDivisionError | C_UserMeta => [C_ArithmeticError]
+  | C_KeyError | C_IndexError => [C_LookupError]
+  | C_UnicodeError => [C_ValueError]
+  | C_FileNotFoundError => [C_OSError]
+  | C_RecursionError => [C_RuntimeError]
+  | C_UserKeyError | C_UserProxy => [C_KeyError]
+  | C_UserExit => [C_SystemExit]
+  | C_ExceptionGroup => [C_BaseExceptionGroup; C_Exception]
+  | C_UserGroup => [C_ExceptionGroup]
+  | C_UserBaseGroup => [C_BaseExceptionGroup]
   end.
 
-(* issubclass(c, d): walk up the tree (its height is 4) *)
+(* issubclass(c, d): walk up the hierarchy through every base (its height is 4) *)
 Fixpoint issub_fuel (fuel : nat) (c d : cls) : bool :=
   cls_eqb c d ||
   match fuel with
   | O => false
-  | S f => match parent c with Some p => issub_fuel f p d | None => false end
+  | S f => existsb (fun p => issub_fuel f p d) (parents c)
   end.
 Definition issubclass (c d : cls) : bool := issub_fuel 5 c d.
 
-(* specification side: descent in the class tree *)
+(* specification side: descent in the class hierarchy *)
 Inductive Ancestor : cls -> cls -> Prop :=
   | anc_refl c : Ancestor c c
-  | anc_step c p d : parent c = Some p -> Ancestor p d -> Ancestor c d.
+  | anc_step c p d : In p (parents c) -> Ancestor p d -> Ancestor c d.
 
 (* isinstance(value, (d1, ..., dn)) for a flat tuple of classes: the handler clause `except (d1, ..., dn):` of Try *)
 Definition isinstance_any (c : cls) (ds : list cls) : bool := existsb (issubclass c) ds.
